@@ -246,15 +246,17 @@ def send_path(ctx, cases, meta):
     ctx.trust('shared-state audit of Connection.send_msg (lib/vf/push_send.py:audit_send_msg); vf.detsched line-granular scheduler (search aid)')
     if probs:
         ctx.proof_broken.append(('shared-state-audit:send_msg', '; '.join(probs)))
-    plans = [(5, [[20], [30]], 16, 2), (5, [[5, 40], [12]], 30, 1)]
+    # the third plan: a request larger than Segment.MAX_PAYLOAD_LENGTH (several non-self-contained segments) against a small one
+    plans = [(5, [[20], [30]], 16, 2), (5, [[5, 40], [12]], 30, 1), (5, [[140000], [10]], 24, 1)]
     if ctx.tier == 'thorough':
         plans += [(6, [[20], [30]], 16, 2), (5, [[5, 40], [12, 3]], 40, 2), (5, [[200000], [10]], 16, 1)]
     reported = set()
     for version, spec, steps, preempt in plans:
         ref = S.reference(spec, version)
+        fref = S.reference_frames(spec, version)
         for sched in detsched.schedules_two_threads(steps, preempt):
             pushed, errs, _n = S.run_schedule(spec, sched, version)
-            fail = S.oracle(spec, ref, pushed, version)
+            fail = S.oracle(spec, ref, pushed, version, fref)
             if errs and not fail:
                 fail = ('send-raised', errs[0])
             ctx.case(['send_msg', version, spec, sched], nontrivial=len(set(sched)) > 1)
@@ -268,7 +270,7 @@ def send_path(ctx, cases, meta):
                                   expected='every request written whole, exactly once, per-thread order', actual={'pushes': len(pushed)}, theorem='C11_order')
                 continue
             # model: each send_msg is one push of the message's bytes; the pushed order is the schedule witness
-            order = [S.decode_stream(b, version)[0][0] for b in pushed]
+            order = [x[0] for x in S.decode_stream(b''.join(pushed), version)]
             progs = [[(S.sid(t, i), len(ref[S.sid(t, i)])) for i in range(len(p))] for t, p in enumerate(spec)]
             g = g_wire('Whole', list(range(len(spec))), progs, [(o - 1) // 16 for o in order], (), 2 * len(order) + 2,
                        max(len(v) for v in ref.values()) + 1, [(o, len(ref[o])) for o in order])
